@@ -48,6 +48,33 @@ def f_is_subnormal(b):
     return (v >> 52) & 0x7FF == 0 and v & ((1 << 52) - 1) != 0
 
 
+def _probe_only_missing(e, allowed):
+    """a configuration probe whose ONLY deviation is that some of `allowed` (documented as implied) are not defined"""
+    from . import configs
+    if e.get('o') != 'probe' or e.get('compiled') != 1 or e.get('layout_ok') != 1:
+        return False
+    c = configs.closure(e.get('named', []))
+    missing = set(c) - set(e.get('defined', []))
+    if not missing or not missing <= allowed:
+        return False
+    # everything else must be as documented: type table and alias widths
+    def widths(t):
+        bits = int(t[:-1])
+        w = {1}
+        if 'SSE2' in c:
+            w.add(128 // bits)
+        if 'AVX2' in c:
+            w.add(256 // bits)
+        if 'AVX512F' in c and (bits >= 32 or 'AVX512BW' in c):
+            w.add(512 // bits)
+        return w
+    ts = ['8u', '8i', '16u', '16i', '32u', '32i', '64u', '64i', '32f', '64f']
+    expect = set((t, n) for t in ts for n in widths(t))
+    if set((t, n) for t, n in e.get('types', [])) != expect:
+        return False
+    return all(n == max(widths(t)) for t, n in e.get('maxw', []))
+
+
 # named input predicates usable in "pred"
 PREDS = {
     'a_zero': lambda e: all(x == 0 for x in e.get('a', [1])),
@@ -64,6 +91,9 @@ PREDS = {
     'sig_none': lambda e: e.get('sig') == 'none',
     'sig_fpe': lambda e: e.get('sig') == 'FPE',
     'sig_segv': lambda e: e.get('sig') in ('SEGV', 'BUS'),
+    'r_nan': lambda e: isinstance(e.get('r'), list) and f_is_nan(e['r']),
+    'partial_count': lambda e: e.get('n', 0) < e.get('N', 0),
+    'probe_only_doc_implication_missing': lambda e: _probe_only_missing(e, {'BMI', 'POPCNT'}),
     'true': lambda e: True,
 }
 
@@ -109,6 +139,9 @@ class Finding(object):
             return False
         for k, v in m.get('fields', {}).items():
             if event.get(k) != v:
+                return False
+        for k, vs in m.get('field_in', {}).items():
+            if event.get(k) not in vs:
                 return False
         for p in m.get('pred', []):
             neg = p.startswith('!')
